@@ -2,6 +2,7 @@ package props
 
 import (
 	"fmt"
+	"strconv"
 	"strings"
 	"unicode/utf8"
 
@@ -424,8 +425,16 @@ func Gen10s(t *rapid.T) Case10s {
 	} else {
 		c.Set = GenRecipe(t, 3)
 	}
-	switch rapid.IntRange(0, 4).Draw(t, "skind") {
-	case 0:
+	switch k := rapid.IntRange(0, 199).Draw(t, "skind"); {
+	case k == 199:
+		// long strings: a 0..3 byte offset, then a multi-byte (or escape) unit repeated up to and
+		// across the sizes at which an implementation may work block by block
+		unit := gen.Pick(t, "lunit", []string{"é", "💩", "a", "%41", "\xff", "é%41", "日"})
+		target := gen.Pick(t, "lsize", []string{"1024", "2048", "4096", "8192"})
+		n, _ := strconv.Atoi(target)
+		reps := n/len(unit) + rapid.IntRange(-1, 2).Draw(t, "lreps")
+		c.S = B(strings.Repeat("a", rapid.IntRange(0, 3).Draw(t, "loff")) + strings.Repeat(unit, reps))
+	case k%5 == 0:
 		c.S = B(gen.Any(t, "s"))
 	default:
 		n := rapid.IntRange(0, 10).Draw(t, "n")
